@@ -26,6 +26,9 @@ func main() {
 	}
 	// the loaded program is ~1 GB of live heap: collect less often
 	debug.SetGCPercent(400)
+	// the exact evaluators allocate fast; keep the collector ahead of them
+	debug.SetMemoryLimit(10 << 30)
+	debug.SetGCPercent(50)
 	if pf := os.Getenv("GSA_PROF"); pf != "" {
 		f, err := os.Create(pf)
 		if err == nil {
